@@ -19,7 +19,13 @@ func (ir *IntrospectionResolver) ResolveIntrospectionFields(selectionSet ast.Sel
 	for _, f := range common.SelectionSetToFields(selectionSet, nil) {
 		switch f.Name {
 		case "__type":
-			name := f.Arguments.ForName("name").Value.Raw
+			var name string
+			if arg := f.Arguments.ForName("name"); arg != nil && arg.Value != nil {
+				// the name can be given as a variable
+				if v, err := arg.Value.Value(ir.Variables); err == nil {
+					name, _ = v.(string)
+				}
+			}
 			introspectionResult[f.Alias] = ir.resolveType(schema, &ast.Type{NamedType: name}, f.SelectionSet)
 			isIntrospection = true
 		case "__schema":
